@@ -9,8 +9,8 @@ case "$1" in
 setup)
   git -C /verif worktree remove --force $VS 2>/dev/null; git -C /repo worktree remove --force $RS 2>/dev/null
   git -C /verif worktree add -q --detach $VS HEAD && git -C /repo worktree add -q --detach $RS HEAD || exit 2
-  sed -i 's#path = "/repo"#path = "$RS"#' $VS/harness/Cargo.toml $VS/harness20/Cargo.toml; cp /verif/harness20/Cargo.lock $VS/harness20/Cargo.lock
-  sed -i 's#^REPO = "/repo"#REPO = "$RS"#' $VS/tools/runner.py $VS/tools/c16_inventory.py
+  sed -i "s#path = \"/repo\"#path = \"$RS\"#" $VS/harness/Cargo.toml $VS/harness20/Cargo.toml; cp /verif/harness20/Cargo.lock $VS/harness20/Cargo.lock
+  sed -i "s#^REPO = \"/repo\"#REPO = \"$RS\"#" $VS/tools/runner.py $VS/tools/c16_inventory.py
   cp /verif/harness/Cargo.lock $VS/harness/Cargo.lock
   (cd $VS && ./check setup > $VS.setup.log 2>&1); tail -2 $VS.setup.log
   ;;
